@@ -415,6 +415,11 @@ def operand_to_class_unit(res):
     return res
 
 
+def _loader_unit():
+    from .c15 import loader_unit
+    return loader_unit
+
+
 def units(tier):
     us = [Unit("C07/x86/_check_operands/registers-and-kinds", x86_unit_regs, "P",
                [(HW, "MachineModel._check_operands"), (HW, "MachineModel._check_x86_operands"), (HW, "MachineModel._is_x86_reg_type"), (PX, "ParserX86ATT.is_vector_register")], timeout=1500)]
@@ -437,6 +442,7 @@ def units(tier):
         Unit("C07/suffix-fall-backs/assign_src_dst/aarch64", roles_unit("aarch64"), "Pb", [(ISAF, "ISASemantics.assign_src_dst")], timeout=1500),
         Unit("C07/suffix-fall-backs/assign_tp_lt/x86", compose_unit("x86"), "Pb", [("osaca/semantics/arch_semantics.py", "ArchSemantics.assign_tp_lt")], timeout=1500),
         Unit("C07/suffix-fall-backs/assign_tp_lt/aarch64", compose_unit("aarch64"), "Pb", [("osaca/semantics/arch_semantics.py", "ArchSemantics.assign_tp_lt")], timeout=1500),
+        Unit("C07/MachineModel.__init__(loader: per-mnemonic index in file order)", _loader_unit(), "Pb", [(HW, "MachineModel.__init__")], decisive=False),
         Unit("C07/operand_to_class(loader: patterns as written)", operand_to_class_unit, "P", [(HW, "MachineModel.operand_to_class")]),
         Unit("C07/_match_operands", match_operands_unit, "P", [(HW, "MachineModel._match_operands")]),
         Unit("C07/get_instruction", get_instruction_unit, "Pb", [(HW, "MachineModel.get_instruction")]),
